@@ -404,7 +404,7 @@ def c16(ctx):
                 "user function, builtin) in plain form, + - * / % also in op-assign form on variable / element / "
                 "property; 23 typed contexts x 8 kinds; thorough: the same inside a function. Every cell is "
                 "non-trivial (each exercises one entry of the type table); distinct = distinct cells")
-    out = ctx.run_model("MC_C16", "C16Params" if ctx.quick else "C16ParamsThorough", workers=16)
+    out = ctx.run_model("MC_C16", "C16Params" if ctx.quick else "C16ParamsThorough", invariants=["EqNestRule"], workers=16)
     ctx.notes.append("ASSUME TypeTable / TypeNamesOk (operator domain = the table of the property statement; "
                      "diagnostics name operator and both type names in order) checked by TLC at start-up")
     ctx.replay(out, "c16", seeds=(None,) if ctx.quick else (None, ctx.seed, ctx.seed + 1))
